@@ -67,6 +67,7 @@ type copyFn struct {
 	body    string // Lean def text ("" if not translatable)
 	err     string
 	usesFix bool
+	callees []string
 }
 
 type site struct {
@@ -105,6 +106,7 @@ type xl struct {
 	lines   []string
 	ntmp    int
 	usesFix bool
+	callees []string
 }
 
 func (x *xl) tmp() string {
@@ -185,6 +187,7 @@ func (x *xl) expr(e ast.Expr) (string, kind, error) {
 					x.usesFix = true
 					x.lines = append(x.lines, fmt.Sprintf("let %s ← I64.mulDivTrunc128 %s", n, strings.Join(args, " ")))
 				} else {
+					x.callees = append(x.callees, x.pkgLean+"_"+id.Name)
 					x.lines = append(x.lines, fmt.Sprintf("let %s ← %s_%s %s", n, x.pkgLean, id.Name, strings.Join(args, " ")))
 				}
 				return n, kI64, nil
@@ -320,6 +323,7 @@ func translate(fset *token.FileSet, fd *ast.FuncDecl, c *copyFn, targets map[str
 	c.body = sb.String()
 	c.arity = len(params)
 	c.usesFix = x.usesFix
+	c.callees = x.callees
 }
 
 // constant value of a syntactically constant integer expression
@@ -510,6 +514,21 @@ func main() {
 	sb.WriteString("One definition per copy of the timestamp-scaling helpers, plus the call sites of the\nthree-argument copies with their syntactically constant rate arguments.\n-/\n")
 	sb.WriteString("import MtxVerif.Model.C24\n\nnamespace MtxVerif.C24.Gen\nopen MtxVerif.C24\n\n")
 	n3, n2, skipped := 0, 0, 0
+	byLean := map[string]*copyFn{}
+	for _, c := range copies {
+		byLean[c.lean] = c
+	}
+	for changed := true; changed; { // a wrapper is "fixed" iff a helper it calls is
+		changed = false
+		for _, c := range copies {
+			for _, cal := range c.callees {
+				if k := byLean[cal]; k != nil && k.usesFix && !c.usesFix {
+					c.usesFix = true
+					changed = true
+				}
+			}
+		}
+	}
 	for _, c := range copies {
 		if c.body == "" {
 			fmt.Fprintf(&sb, "-- NOT TRANSLATED %s:%d %s: %s\n\n", c.file, c.line, c.name, c.err)
@@ -518,6 +537,8 @@ func main() {
 			continue
 		}
 		sb.WriteString(c.body + "\n")
+		fmt.Fprintf(&sb, "/-- does `%s` compute the remainder term with the repaired 128-bit helper? -/\n", c.lean)
+		fmt.Fprintf(&sb, "def %s_usesFix : Bool := %v\n\n", c.lean, c.usesFix)
 	}
 	sb.WriteString("/-- three-argument copies `f(v, m, d)`: (name, uses the repaired remainder term, function) -/\n")
 	sb.WriteString("def copies3 : List (String × Bool × (Int → Int → Int → Option Int)) := [\n")
@@ -528,13 +549,13 @@ func main() {
 				sb.WriteString(",\n")
 			}
 			first = false
-			fmt.Fprintf(&sb, "  (%q, %v, %s)", c.lean, c.usesFix, c.lean)
+			fmt.Fprintf(&sb, "  (%q, %s_usesFix, %s)", c.lean, c.lean, c.lean)
 			n3++
 		}
 	}
 	sb.WriteString("]\n\n")
-	sb.WriteString("/-- two-argument wrappers `f(x, rate)`: (name, Go function name, function) -/\n")
-	sb.WriteString("def copies2 : List (String × String × (Int → Int → Option Int)) := [\n")
+	sb.WriteString("/-- two-argument wrappers `f(x, rate)`: (name, Go function name, repaired, function) -/\n")
+	sb.WriteString("def copies2 : List (String × String × Bool × (Int → Int → Option Int)) := [\n")
 	first = true
 	for _, c := range copies {
 		if c.body != "" && c.arity == 2 {
@@ -542,7 +563,7 @@ func main() {
 				sb.WriteString(",\n")
 			}
 			first = false
-			fmt.Fprintf(&sb, "  (%q, %q, %s)", c.lean, c.name, c.lean)
+			fmt.Fprintf(&sb, "  (%q, %q, %s_usesFix, %s)", c.lean, c.name, c.lean, c.lean)
 			n2++
 		}
 	}
